@@ -45,7 +45,7 @@ def interpField (fac : Factory) (mesgNum arch : Nat) (fd : FieldDef) (b : List N
     if fd.size = 0 then .ok none else
     let rs := readShape fd.size sh.1 sh.2.1 sh.2.2.1
     (valueOfBytes b arch rs.1 rs.2.1 rs.2.2 sh.2.2.2).bind fun v =>
-      let v := if rs.1 ≠ sh.1 then convertBytesToValue (sliceUint8Of v) arch sh.1 else v
+      let v := if rs.1 ≠ sh.1 then undersizedValue sh.2.2.1 (sliceUint8Of v) arch sh.1 else v
       .ok (some ⟨fd.num, sh.1, info.known, sh.2.1, sh.2.2.1, v, false⟩)
 
 /-- the state after a field was decoded -/
